@@ -19,12 +19,19 @@ static void trunc_run(Ctx& c) {
     c.model = m.describe(); c.canon = m.canon() + "|eps=" + fmt(eps) + "|" + std::to_string(c.k % 97);
     Pomerol::DensityMatrix DMt(*p.S, *p.H, beta); DMt.prepare(); DMt.compute();
     // the retain flags must reflect the LAST tolerance, whatever was requested before (and a repeated request changes nothing)
+    // the verbose flag only controls a printed summary: every call is made with a randomly chosen value of it
     std::string seq = "single";
+    const double eps_first = std::min(0.3, eps * 1e4 + 1e-3);
+    // a container of Green's functions that lives through the whole truncation history (filled and computed after the first request, again after the last)
+    Pomerol::GFContainer Gold(*p.IC, *p.S, *p.H, DMt, *p.Ops);
+    bool reuse = false;
     { int w = (int)r.range(0, 3);
-      if (w == 1) { DMt.truncateBlocks(std::min(0.3, eps * 1e4 + 1e-3), false); seq = "larger-first"; }
-      else if (w == 2) { DMt.truncateBlocks(eps * 1e-3, false); seq = "smaller-first"; }
-      else if (w == 3) { DMt.truncateBlocks(eps, false); seq = "repeated"; } }
-    DMt.truncateBlocks(eps, false);
+      if (w == 1) { DMt.truncateBlocks(eps_first, r.coin()); seq = "larger-first"; if (r.coin()) { Gold.prepareAll(); Gold.computeAll(); reuse = true; } }
+      else if (w == 2) { DMt.truncateBlocks(eps * 1e-3, r.coin()); seq = "smaller-first"; }
+      else if (w == 3) { DMt.truncateBlocks(eps, r.coin()); seq = "repeated"; } }
+    const bool last_verbose = r.coin();
+    DMt.truncateBlocks(eps, last_verbose);
+    seq += last_verbose ? ":verbose" : ":silent";
     Pomerol::DensityMatrix& DMf = *p.DM;
     // (1) retain rule
     long discarded = 0;
@@ -35,7 +42,16 @@ static void trunc_run(Ctx& c) {
         c.check("retain-rule", "C19:discarded-block-has-weight-above-eps:" + seq, ret || wmax <= eps, [&] { return "block " + std::to_string(b) + " discarded although its largest weight is " + fmt(wmax) + " > eps=" + fmt(eps) + " (truncateBlocks sequence: " + seq + ")"; });
         c.check("untruncated-retained", "C19:untruncated-not-retained", DMf.isRetained(B), [&] { return std::string("isRetained false without truncateBlocks"); });
     }
-    c.features.set("sequence", seq).set("N", N).set("eps", fmt(eps)).set("blocks", nb).set("discarded_blocks", discarded).set("discarded_any", discarded > 0);
+    if (reuse) {
+        // the same container prepared and computed again after the final request must hold what a fresh one holds
+        Gold.prepareAll(); Gold.computeAll();
+        Pomerol::GFContainer Gnew(*p.IC, *p.S, *p.H, DMt, *p.Ops); Gnew.prepareAll(); Gnew.computeAll();
+        for (int i = 0; i < N; ++i) for (int j = 0; j < N; ++j) { if (i != j && N > 3 && !r.coin(0.3)) continue;
+            for (long n : {0L, -2L}) { cd a = Gnew((Pomerol::ParticleIndex)i, (Pomerol::ParticleIndex)j)(n), b = Gold((Pomerol::ParticleIndex)i, (Pomerol::ParticleIndex)j)(n);
+                c.cmp("container-reused", "C19:container-reused-after-retruncation", b, a, 1e-13 * (1 + std::abs(a)), [&] { return "G_{" + std::to_string(i) + "," + std::to_string(j) + "}(n=" + std::to_string(n) + ") from a GFContainer computed at eps=" + fmt(eps_first) + " and prepared/computed again at eps=" + fmt(eps) + " vs a fresh container"; }); } }
+        c.count("containers_reused");
+    }
+    c.features.set("reuse_container", reuse).set("sequence", seq).set("N", N).set("eps", fmt(eps)).set("blocks", nb).set("discarded_blocks", discarded).set("discarded_any", discarded > 0);
     std::string ek = eps == 0.0 ? "eps=0" : "eps>0";
     auto bound = [&](double b, cd a) { return eps == 0.0 ? 1e-15 * (1 + std::abs(a)) : b * (1 + 1e-9) + 1e-14 * (1 + std::abs(a)); };
     // (2) Green's functions
